@@ -491,8 +491,8 @@ def dims(spec: Dict[str, Any]) -> Dict[str, str]:
             "frameworks": "same" if len({x.get("cfw") for x in spec["groups"]}) == 1 else "cross"}
 
 
-def one(spec: Dict[str, Any]) -> Dict[str, Any]:
-    cap = Cap()
+def one(spec: Dict[str, Any], cap: Optional[Cap] = None, modes: Any = None) -> Dict[str, Any]:
+    cap = cap or Cap()
     uni = Universe(spec, cap)
     rec: Dict[str, Any] = {"spec": spec}
     try:
@@ -502,7 +502,7 @@ def one(spec: Dict[str, Any]) -> Dict[str, Any]:
         rec["exc"] = f"{type(e).__name__}: {str(e)[:120]}"
         return rec
     plan = export_plan(sess, uni)
-    o = run_observed(sess, timeout=20, ren=plan["_ren"])
+    o = run_observed(sess, modes=modes, timeout=20, ren=plan["_ren"])
     plan = routing.with_run_orders(plan, o.get("orders"))
     rec["status"] = o["status"]
     rec["exc"] = str(o.get("exc"))[-160:] if o["status"] == "raised" else None
